@@ -47,7 +47,7 @@ def one(path):
                 c2 = core.Ctx(pid, 'quick', db2, scratch=True)
                 mod.run(c2)
                 new = [o for o in c2.obs if o.status == 'violation']
-                broken = [m for m in c2.mins if m[1] < m[2]] + [c for c in c2.controls if not c[1]]
+                broken = [m for m in c2.mins if m[1] < m[2]] + [c for c in c2.controls if not c[1]] + list(c2.broken)
                 if new:
                     out['checks'][pid] = ['%s %s @%s: %s' % (o.rule, o.key, o.loc, o.what[:160]) for o in new[:3]]
                     out.setdefault('rules', {})[pid] = sorted({(o.rule, o.key) for o in new})
